@@ -91,6 +91,24 @@ class Builder:
             S.assume(c)
 
 
+class RaiseCond:
+    """A raise condition that needs quantifiers: `pos` is proved on the raising exit,
+    `neg` (its negation, stated positively) on the normal exit."""
+
+    def __init__(self, pos, neg):
+        self.pos, self.neg = pos, neg
+
+
+def _pos(cond):
+    return cond.pos if isinstance(cond, RaiseCond) else cond
+
+
+def _neg(cond):
+    if isinstance(cond, RaiseCond):
+        return cond.neg
+    return (not cond) if isinstance(cond, bool) else not_(cond)
+
+
 class Contract:
     """Base class of a sidecar contract for one real function."""
 
@@ -240,6 +258,11 @@ def make_stub(callee, caller_label):
             c.in_spec -= 1
         S.prove("call.pre[%s]#%s" % (callee.target.split(":")[1], c.fresh_name("call")), pre, kind="call")
         for exc_type, cond in rz:
+            if isinstance(cond, RaiseCond):
+                b = c.fresh("raises", "bool")
+                S.assume(cond.pos, guard=b)
+                S.assume(cond.neg, guard=not_(b))
+                cond = b
             if cond is True or (cond is not False and bool(cond)):
                 raise _mark(exc_type("raised by the contract of %s" % callee.target))
         c.in_spec += 1
@@ -343,15 +366,10 @@ def verify_path(contract, cfg, c, prop="", replay_hook=None):
             if not matching:
                 c.fail(nm, "unexpected %s: %s" % (type(out.exc).__name__, str(out.exc)[:300]), kind="raises")
             else:
-                c.in_spec += 1
-                try:
-                    goal = or_(*matching) if len(matching) > 1 else matching[0]
-                finally:
-                    c.in_spec -= 1
-                c.oblige(nm, goal, kind="raises")
+                S.prove(nm, S.AnyOf(*[_pos(m) for m in matching]) if len(matching) > 1 else _pos(matching[0]), kind="raises")
         else:
             for k, (T, cond) in enumerate(rz):
-                c.oblige("%s:raises.required[%s#%d]" % (label, T.__name__, k), not_(cond) if not isinstance(cond, bool) else (not cond), kind="raises")
+                S.prove("%s:raises.required[%s#%d]" % (label, T.__name__, k), _neg(cond), kind="raises")
             c.in_spec += 1
             try:
                 post = contract.ensures(a, out.result)
